@@ -71,6 +71,12 @@ func H_C11_location() {
 	vxrt.Chdir()
 	trim := vxrt.Bool("trimpath")
 	vxrt.Trimpath(trim)
+	if !trim {
+		// GOFLAGS of an ordinary build: empty, or flags that are not -trimpath
+		if vxrt.Bool("GOFLAGS-with-other-flags") {
+			vxrt.EnvFixed("GOFLAGS", "-mod=mod  -count=1 -trimpath=false")
+		}
+	}
 	vxCalibrateSnapshotPath()
 	n := vxrt.Param("n", 2)
 	testDir := vxrt.TestFileDir()
